@@ -296,9 +296,19 @@ def _surface_case(desc, ctx, rng):
 
 
 def _quad_diagonal_is_an_edge(F):
-    """True when some quad [A, B, C, D] of the face list has a diagonal (either one) that is already an edge of the mesh."""
+    """True when some quad [A, B, C, D] of the face list has a diagonal (either one) that is already an edge of the mesh, or that is also a
+    diagonal of another quad (once the first quad is split, it is an edge): on such very small meshes (a 3 x 3 torus of quads) splitting the
+    quads along diagonals cannot give a manifold."""
     E = {(min(f[k], f[(k + 1) % len(f)]), max(f[k], f[(k + 1) % len(f)])) for f in F for k in range(len(f))}
-    return any(len(f) == 4 and ((min(f[1], f[3]), max(f[1], f[3])) in E or (min(f[0], f[2]), max(f[0], f[2])) in E) for f in F)
+    seen = set()
+    for f in F:
+        if len(f) != 4:
+            continue
+        for d in ((min(f[1], f[3]), max(f[1], f[3])), (min(f[0], f[2]), max(f[0], f[2]))):
+            if d in E or d in seen:
+                return True
+        seen.update([(min(f[1], f[3]), max(f[1], f[3])), (min(f[0], f[2]), max(f[0], f[2]))])
+    return False
 
 
 def _input_object_surface(ctx, m, snap0, snapr, site):
